@@ -155,23 +155,45 @@ func runC08(c *ctx) error {
 				envKeys = append(envKeys, k)
 			}
 		}
-		// env with a merge in the middle
-		mergePos := rng.Intn(len(envKeys) + 1)
+		// env with a merge in the middle; some explicit keys override merged ones, spelled canonically or not
+		// (0x10 is the key "16", True the key "true"): an explicit key stands where it is written, and the merge
+		// contributes only the keys no explicit key of the mapping defines
+		type envEntry struct{ written, canon string }
+		var entries []envEntry
+		for _, k := range envKeys {
+			entries = append(entries, envEntry{k, k})
+		}
+		overridden := map[string]bool{}
+		for _, ov := range []envEntry{{"0x10", "16"}, {"True", "true"}, {"M1", "M1"}, {"16", "16"}} {
+			if rng.Intn(3) == 0 && !overridden[ov.canon] {
+				pos := rng.Intn(len(entries) + 1)
+				entries = append(entries[:pos], append([]envEntry{ov}, entries[pos:]...)...)
+				overridden[ov.canon] = true
+				c.res.Hist("documents.explicit-overrides-merged")
+			}
+		}
+		mergePos := rng.Intn(len(entries) + 1)
 		var b strings.Builder
-		b.WriteString("base: &base\n  M1: m1\n  M2: m2\n")
+		b.WriteString("base: &base\n  M1: m1\n  \"16\": m16\n  M2: m2\n  \"true\": mt\n")
 		b.WriteString("env:\n")
 		var wantEnv []string
-		for j, k := range envKeys {
-			if j == mergePos {
-				b.WriteString("  <<: *base\n")
-				wantEnv = append(wantEnv, "M1", "M2")
-			}
-			fmt.Fprintf(&b, "  %s: v%d\n", k, j)
-			wantEnv = append(wantEnv, k)
-		}
-		if mergePos == len(envKeys) {
+		merged := func() {
 			b.WriteString("  <<: *base\n")
-			wantEnv = append(wantEnv, "M1", "M2")
+			for _, k := range []string{"M1", "16", "M2", "true"} {
+				if !overridden[k] {
+					wantEnv = append(wantEnv, k)
+				}
+			}
+		}
+		for j, e := range entries {
+			if j == mergePos {
+				merged()
+			}
+			fmt.Fprintf(&b, "  %s: v%d\n", e.written, j)
+			wantEnv = append(wantEnv, e.canon)
+		}
+		if mergePos == len(entries) {
+			merged()
 		}
 		nested := c08Map(rng, 2+rng.Intn(10), 2)
 		nested.Delete("<<")
